@@ -327,8 +327,21 @@ def gen_ni_history(seed):
         elif c == "regrid":
             ops.append({"op": "regrid", "mol": rng.below(nmol), "grid": rng.below(len(grids))})
         elif c == "regrid_inplace":
-            a = rng.below(nmol)
-            ops.append({"op": "regrid_inplace", "from_mol": a, "to_mol": (a + 1 + rng.below(nmol - 1)) % nmol, "grid": rng.below(len(grids))})
+            prev = [o for o in ops if o["op"] == "call" and not o.get("fault") and not o.get("scale")]
+            if prev and rng.chance(0.7):
+                # a geometry step as a scanner does it: the grids object of the last call is
+                # re-targeted to another molecule and rebuilt in place, then the same calculator
+                # is called again with it
+                last = prev[-1]
+                a = last["mol"]
+                b = (a + 1 + rng.below(nmol - 1)) % nmol
+                ops.append({"op": "regrid_inplace", "from_mol": a, "to_mol": b, "grid": last["grid"]})
+                nxt = {k_: v_ for k_, v_ in last.items() if k_ not in ("fault", "scale")}
+                nxt["mol"] = b
+                ops.append(nxt)
+            else:
+                a = rng.below(nmol)
+                ops.append({"op": "regrid_inplace", "from_mol": a, "to_mol": (a + 1 + rng.below(nmol - 1)) % nmol, "grid": rng.below(len(grids))})
         else:
             ops.append({"op": c, "model": rng.below(nm), "mol": rng.below(nmol)})
     if not any(o["op"] == "call" and len(o["dms"]) > 1 for o in ops) and rng.chance(0.6):
